@@ -558,6 +558,11 @@ class Gen:
     def subq_pred(self, scope, d):
         f = self.f
         kind = self.pick(["in", "exists", "scalar"] + (["any"] if f["any_sub"] else []))
+        if kind == "scalar" and f.get("scalar_subq_max") is not None:
+            if getattr(self, "_n_scalar", 0) >= f["scalar_subq_max"]:
+                kind = self.pick(["in", "exists"])
+            else:
+                self._n_scalar = getattr(self, "_n_scalar", 0) + 1
         t = self._subq_table()
         src = self.base_source(t)
         src.force_qualify = True
@@ -579,6 +584,7 @@ class Gen:
                 dq.tags = set()
                 src = Source("derived", self.new_alias("d"), query=dq, cols=list(dq.out))
                 src.force_qualify = True
+                src.outer_col = c2[0]
                 self.tags.add("sub:derived-projects-outer-column")
         q = Query()
         q.from_ = src
@@ -623,6 +629,11 @@ class Gen:
             return ("anysub", self.int_expr(scope, 1), self.pick(["=", "<", ">"]), q, self.pick(["ANY", "ALL"]) if False else "ANY")
         self.tags.add("sub:scalar")
         arg = self.colref(inner, INT) or ("lit", 1, INT)
+        if arg[0] == "col" and arg[2] == getattr(src, "outer_col", None) and not f.get("agg_over_outer"):
+            # an aggregate whose argument is (after inlining the derived table) a column of the outer query belongs to the
+            # outer query by the SQL rules: listed finding of merge_subqueries (C03 probe); not part of the main workload
+            others = [c for c in src.cols if c[1] == INT and c[0] != src.outer_col]
+            arg = ("col", src.alias, others[0][0], INT, src.alias) if others else ("lit", 1, INT)
         q.projs = [(("agg", self.pick(["MAX", "MIN", "SUM", "COUNT"]), arg, False), None)]
         return ("bin", self.pick(["=", "<", ">=", "<>"]), self.int_expr(scope, 1), ("scalar", q))
 
@@ -1044,6 +1055,10 @@ class Gen:
         return self.pick(self.tables)
 
     def scalar_subquery(self, scope):
+        if self.f.get("scalar_subq_max") is not None:
+            if getattr(self, "_n_scalar", 0) >= self.f["scalar_subq_max"]:
+                return None
+            self._n_scalar = getattr(self, "_n_scalar", 0) + 1
         t = self._subq_table()
         src = self.base_source(t)
         src.force_qualify = True
@@ -1124,6 +1139,7 @@ class Gen:
         f = self.f
         for _ in range(20):
             self.tags = set()
+            self._n_scalar = 0
             q = self.select(top=True)
             if f["setops"] and self.chance(0.18):
                 q = self.setop_query()
